@@ -37,7 +37,10 @@ class Site:
             if k == 'flaky':
                 # a server-side outage that is over by the time the command is run again
                 k = 'error' if run_index == 0 else 'leaf'
-            if k == 'html':
+            if k == 'html' and p.get('markup'):
+                body = html_varied(p['links'], p['markup'], meta=p.get('meta'))
+                out[path] = Page(200, body, delay=p.get('delay'))
+            elif k == 'html':
                 body = html([r for r, i in p['links'] if not i], [r for r, i in p['links'] if i], meta=p.get('meta'))
                 out[path] = Page(200, body, delay=p.get('delay'))
             elif k == 'leaf':
@@ -74,6 +77,34 @@ class Site:
                 d['links'] = [tuple(l) for l in d['links']]
             s.pages[p] = d
         return s
+
+
+LINK_FORMS = [
+    '<a href="%s">x</a>', '<area href="%s">', '<form action="%s"></form>', '<link rel="next" href="%s">',
+    '<meta http-equiv="refresh" content="5; url=%s">', "<A HREF='%s'>x</A>", '<a class=k href=%s>x</a>',
+]
+INLINE_FORMS = [
+    '<img src="%s">', '<script src="%s"></script>', '<link rel="stylesheet" href="%s">', '<table background="%s"></table>',
+    '<input type="image" src="%s">', '<div style="background: url(%s)"></div>', '<img lowsrc="%s">', '<object data="%s"></object>',
+    '<link rel="shortcut icon" href="%s">', '<bgsound src="%s">',
+]
+
+
+def html_varied(links, salt, meta=None):
+    """The page of `html`, with each reference written in one of the element forms the scraper knows: the ordinary
+    links as <a>, <area>, <form action>, <link rel=next>, meta refresh; the embedded objects as <img>, <script>,
+    stylesheet / icon <link>, background attributes, CSS in a style attribute, <object data>.  Which form a reference
+    gets is fixed by `salt` and its position (replayable)."""
+    parts = ['<html><head><title>t</title>']
+    if meta:
+        parts.append(meta)
+    parts.append('</head><body>')
+    for k, (ref, inline) in enumerate(links):
+        forms = INLINE_FORMS if inline else LINK_FORMS
+        plain = len(ref) < 2 or ref.startswith('#')
+        parts.append(forms[0 if plain else (salt + 3 * k) % len(forms)] % ref)
+    parts.append('</body></html>')
+    return ''.join(parts).encode('utf-8')
 
 
 FRAGMENT_ONLY_LINKS = True       # the fragment-only join defect (extra request of the directory) was repaired by de6baa6
@@ -169,6 +200,10 @@ def gen_site(rng, size=None, redirects=True, inline=True, offsite=True, deep=Fal
     for p in paths:
         if FRAGMENT_ONLY_LINKS and s.pages[p]['kind'] == 'html' and rng.random() < 0.15:
             s.pages[p]['links'].append((rng.choice(['#top', '#', '']), False))
+    # the same references written in the other element forms the scraper knows
+    for p in paths:
+        if s.pages[p]['kind'] == 'html' and rng.random() < 0.35:
+            s.pages[p]['markup'] = rng.randint(1, 999)
     if start_deep:
         # a page two directories down that links sideways and upwards, to in-scope pages nobody else links to
         s.pages['/d/sub/deep.html'] = {'kind': 'html', 'links': [('/d/only-from-deep.txt', False), ('../side/x.html', False), ('/top.txt', False)]
